@@ -243,7 +243,7 @@ def gen_behaviours(profile, seed, count, length, path):
 # trace validation
 
 
-SDEV = ("F7", "F12")   # deviations of the concurrent cache from the intended design still present in /repo
+SDEV = ("F7", "F12", "F15")   # deviations of the concurrent cache from the intended design still present in /repo
 
 
 def trace_check(wd, name, trace, props, nkeys, layer_i=True, period=1280, timeout=900, dev=(), sdev=SDEV, quiet=False):
